@@ -3,6 +3,7 @@ use crate::ev::{Ctx, PropMeta};
 
 pub mod c01;
 pub mod c03;
+pub mod c04;
 pub mod c15;
 
 pub struct Monitor {
@@ -15,5 +16,6 @@ pub fn all() -> Vec<Monitor> {
     vec![
         Monitor { meta: &c01::META, run: c01::run, replay: c01::replay },
         Monitor { meta: &c03::META, run: c03::run, replay: c03::replay },
+        Monitor { meta: &c04::META, run: c04::run, replay: c04::replay },
         Monitor { meta: &c15::META, run: c15::run, replay: c15::replay }]
 }
